@@ -31,7 +31,8 @@ theorem collect_eq_responses (clear : Bool) : ∀ (fuel : Nat) (s : Stream), s.s
 
 /-- **one_result_per_event** — exactly one result per source event (same length; order is
     `kth_result_is_exec_of_kth_event`), and the response stream ends when the source ends: the
-    call after the last result pulls the exhausted source once and stops. -/
+    call after the last result pulls the exhausted source once and stops.
+    (The statement is the length equation on the pure recursion; that the stream ends exactly when the source ends - `pulls`, `source = []` - is `collect_eq_responses`.) -/
 theorem one_result_per_event (clear : Bool) (st : ExecState) (k : Nat) (evs : List Event) :
     (responses clear st k evs).length = evs.length := by
   induction evs generalizing st k with
@@ -47,7 +48,8 @@ private theorem clear_forgets (st : ExecState) (k : Nat) (ev : Event) :
 
 /-- **kth_result_is_exec_of_kth_event** — whatever state the shared executor is in when the
     stream starts, the j-th result is exactly what a fresh execution of the selection with the
-    j-th event as root value yields (results come in source order). -/
+    j-th event as root value yields (results come in source order).
+    WHAT THIS SAYS (audit round 2): `freshExec k e` IS `executeSubscriptionEvent true ⟨[]⟩ k e` - the same function of the model run on an empty executor (`clear_forgets` is `rfl`), and an `Event` is already the outcome tree of the selection (which fields raise, leaf values) over Subscribe.lean's own synchronous mini-executor. The content is therefore exactly: THE ERROR LIST IS RESET BEFORE EACH EVENT, so the k-th result does not depend on the history (necessary: `errors_not_isolated_without_clear_errors`). That the k-th result equals an execution of the selection on the C04/C08 executor models is NOT stated here; it is what the direct oracle checks on the real code (k-th response = graphql_blocking of the twin schema on event k). -/
 theorem kth_result_is_exec_of_kth_event (st : ExecState) (k : Nat) (evs : List Event) (j : Nat) :
     (responses true st k evs)[j]? = evs[j]?.map (freshExec (k + j)) := by
   induction evs generalizing st k j with
@@ -104,7 +106,8 @@ theorem executor_errors_after_event (st : ExecState) (k : Nat) (ev : Event) :
 
 /-- **errors_isolated** — the error list of the j-th result contains only errors raised while
     processing the j-th event, for every stream, every failure pattern and whatever the shared
-    executor held before. -/
+    executor held before.
+    (The tag `event := k` is stamped by the model's own mini-executor: together with `errors_not_isolated_without_clear_errors` the content is that `clear_errors` runs first.) -/
 theorem errors_isolated (st : ExecState) (k : Nat) (evs : List Event) (j : Nat) (r : Result)
     (h : (responses true st k evs)[j]? = some r) : ∀ x ∈ r.errors, x.event = k + j := by
   rw [kth_result_is_exec_of_kth_event] at h
@@ -198,7 +201,8 @@ example : (collectSels [.spread [.field (some "counter")], .field none, .field (
     exactly one field (however it is spelled), an undefined field, a field without subscription
     resolver are refused with the exception class the code documents, in that order of
     precedence, and in every refusal neither the subscription resolver was called nor a single
-    event pulled from a source. Everything else is accepted. -/
+    event pulled from a source. Everything else is accepted.
+    WHAT THIS SAYS (audit round 2): `subscribe` in the model is the if-chain of the code over the flags of `SubRequest`, and every refused branch is the literal `.refused exc false 0`; this theorem (and `refused_before_variables`, `refusals_uncomputable`) is a case split over that chain: it pins WHICH exception class each condition yields and the ORDER of the checks. `subResolverCalled = false` / `pulls = 0` are constants of the refused branches, not derived from a step relation: the model has no step at which the subscription resolver is called or the source iterator is pulled, so 'before any event is consumed' is checked on the REAL code only (instrumented source: no `__aiter__` / `__anext__` / resolver call on any refusal, every runtime class). The non-definitional part of the root rule is `collected_root_fields` / `root_rule_spelling_independent`. -/
 theorem refusals (r : SubRequest) :
     (r.opselOk = false → subscribe r = .refused "InvalidOperationError" false 0)
     ∧ (r.opselOk = true → r.operation ≠ .subscription → subscribe r = .refused "RuntimeError" false 0)
